@@ -471,3 +471,66 @@ def collision_region(failure):
     previous connection is installed but never driven (the establishing coroutine keeps awaiting the closed socket).
     Only the two establishing states, only this observation."""
     return failure.get('collision_state') in ('OPENSENT', 'OPENCONFIRM') and 'was not driven' in failure.get('what', '')
+
+
+# ---------------------------------------------------------------------------------------------------------------------
+# a passive neighbor after its first session: the peer loop (the real Peer.run) goes round again -- it must WAIT for the
+# remote end, never open a connection itself, and serve the connection the remote end opens next
+async def scenario_passive():
+    from exabgp.protocol.family import AFI
+    from exabgp.reactor.network.incoming import Incoming
+
+    sess = Traced(extra='passive true;')
+    inp = {'scenario': 'passive true: the peer ends the first session with a NOTIFICATION, then connects again'}
+    outgoing = []
+    real_connect = sess.peer._connect
+
+    async def connect():
+        outgoing.append(sess.peer.fsm.name())
+        return await real_connect()
+
+    sess.peer._connect = connect
+    sess.start = lambda: setattr(sess, 'task', asyncio.ensure_future(sess.peer.run()))
+    try:
+        try:
+            await sess.to_state('ESTABLISHED')
+        except RuntimeError as e:
+            return {'what': f'harness: {e}', 'input': inp, 'harness': True}
+        await sess.remote.send(S.msg(3, bytes([6, 2])))
+        sess.remote.sock.close()
+        await asyncio.sleep(1.5)
+        if outgoing:
+            return {'what': f'a passive neighbor opened an outgoing connection after its first session ended ({len(outgoing)} attempt(s) in 1.5 s)', 'input': inp}
+        ours, theirs = S.tcp_pair()
+        second = S.Remote(theirs)
+        refused = sess.peer.handle_connection(Incoming(AFI.ipv4, '127.0.0.1', '127.0.0.1', ours))
+        if refused is not None:
+            return {'what': 'the connection the peer of a passive neighbor opens after a session loss is refused', 'input': inp}
+        got = await second.read_message(timeout=2.5)
+        theirs.close()
+        if got is None or got[0] != 1:
+            return {'what': 'the connection the peer of a passive neighbor opens after a session loss is not served (no OPEN on it in 2.5 s)', 'input': inp}
+        return None
+    finally:
+        sess.peer._restart = False
+        sess.peer.stop()
+        if sess.task is not None:
+            sess.task.cancel()
+            try:
+                await sess.task
+            except BaseException:  # noqa
+                pass
+        sess.cleanup()
+
+
+@bounded('C05', 'passive-neighbor-after-a-session')
+def passive_after_session(tier, seed):
+    r = S.run(scenario_passive(), 40)
+    if r and r.get('harness'):
+        raise RuntimeError('session harness failed: ' + r['what'])
+    return {'evaluations': 1, 'distinct_nontrivial': 1, 'bound': 'one history of the real Peer.run over loopback TCP: passive neighbor, session established, ended by the peer with NOTIFICATION 6/2, 1.5 s observed, then a second incoming connection observed for 2.5 s', 'rule': 'one case', 'samples': [{'scenario': 'passive true'}], 'failures': [r] if r else []}
+
+
+@replayer('C05', 'passive-neighbor-after-a-session')
+def _replay_passive(f):
+    return S.run(scenario_passive(), 40) is None
